@@ -349,15 +349,21 @@ def generate(rng, tier):
             # assigned at send time, the correlator copies tracking data onto responses, a status is set, a parameter added
             from aiosmpplib.state import SmppCommandStatus, OptionalParam
             d = m.__dict__
-            if 'sequence_num' in d:
+            # every other time ONE thing changes and nothing else (a memo keyed by any one field must notice the others)
+            only = rng.choice(('seq', 'log', 'extra', 'status', 'param', 'encoding')) if i % 8 == 0 else None
+            if 'sequence_num' in d and only in (None, 'seq'):
                 m.sequence_num = (m.sequence_num + 1 + rng.randrange(1000)) % 0x7FFFFFFF
-            if 'log_id' in d:
+            if 'log_id' in d and only in (None, 'log'):
                 m.log_id = 'again%d' % i
+            if 'extra_data' in d and only in (None, 'extra'):
                 m.extra_data = 'x%d' % i
+            if 'encoding' in d and only == 'encoding':
+                m.encoding = 'ucs2' if m.encoding != 'ucs2' else 'latin_1'
             # (the command_status of a request is null in SMPP 3.4 and not a constructor argument of the request classes)
-            if 'command_status' in d and (type(m).__name__.endswith('Resp') or type(m).__name__ == 'GenericNack') and rng.random() < 0.5:
+            if 'command_status' in d and (type(m).__name__.endswith('Resp') or type(m).__name__ == 'GenericNack') and (
+                    only == 'status' or (only is None and rng.random() < 0.5)):
                 m.command_status = rng.choice(list(SmppCommandStatus))
-            if isinstance(d.get('optional_params'), list) and rng.random() < 0.3:
+            if isinstance(d.get('optional_params'), list) and (only == 'param' or (only is None and rng.random() < 0.3)):
                 m.optional_params.append(OptionalParam(0x0204, rng.randrange(65536)))
             yield rt_case(m, tag + '-again')
         if i % 6 == 1:
